@@ -334,6 +334,20 @@ contains
     integer, intent(in) :: a, b
     type(t_t) :: res(merge(1, 2, a<b), merge(1, 2, b>a))
   end function mkbox
+  real function axis(i)
+    integer, intent(in) :: i
+    dimension axis(3)
+    axis = 0.0
+  end function axis
+  character(len=8) function tag()
+    pointer :: tag
+  end function tag
+  integer function cnt(nitems)
+    cnt = nitems
+  end function cnt
+  function untyped(j)
+    untyped = j
+  end function untyped
   character(len=len("re<s>")) function fl()
     fl = "x"
   end function fl
@@ -410,6 +424,17 @@ def witness_facts():
             fp = BeautifulSoup(_page(doc, f"proc/{fname}.html"), "html.parser")
             rv = [R.squash(R.browser_text(h)) for h in fp.find_all(["h3", "h4"]) if R.browser_text(h).startswith("Return Value")]
             facts["fixed:function-prefix-literal/" + fname] = not any(want in x for x in rv)
+        # every function result / implicit argument shows its OWN declaration (no attribute of another one)
+        for fname, want in (("axis", "real,dimension(3)"), ("tag", "character(len=8),pointer"), ("cnt", "integer"),
+                            ("untyped", "real"), ("fl", 'character(len=len("re<s>"))'), ("fk", 'integer(kind=kind("x\\y"))')):
+            fp = BeautifulSoup(_page(doc, f"proc/{fname}.html"), "html.parser")
+            rv = [R.squash(R.browser_text(h))[len("ReturnValue"):] for h in fp.find_all(["h3", "h4"])
+                  if R.browser_text(h).startswith("Return Value")]
+            facts["fixed:own-declaration/result-of-" + fname] = rv != [want]
+            if fname in ("cnt", "untyped"):
+                cells = [R.browser_text(td) for tr_ in fp.select("table.varlist tbody > tr")
+                         for td in tr_.find_all("td", recursive=False)]
+                facts["fixed:own-declaration/implicit-argument-of-" + fname] = any("dimension" in c or "pointer" in c for c in cells)
         pp = BeautifulSoup(_page(doc, "proc/f.html"), "html.parser")
         rv = [R.squash(R.browser_text(h)) for h in pp.find_all(["h3", "h4"]) if R.browser_text(h).startswith("Return Value")]
         facts["probe:proc_page.html:procedure.retvar.full_declaration | relurl(page_url)#1"] = \
@@ -508,6 +533,9 @@ def run(chk):
     quick = chk.tier == "quick"
     known = known_unescaped_keys()
     chk.extra["known_unescaped_sites"] = len(known)
+    # the fixed witness project runs FIRST in this process (state that survives between projects shows up in the
+    # second run at the end and in the later projects of the worker processes)
+    first_facts = witness_facts()
     cases = unit_cases(chk, rng, 300 if quick else 2500)
     byf = {}
     for _, d in cases:
@@ -518,6 +546,11 @@ def run(chk):
     for payload in getattr(chk, "_c18_deferred", []):
         chk.violation("broken-correspondence", payload, False)
     facts = witness_facts()
+    for k, v in first_facts.items():         # a fact that fails in either run fails
+        if v and k != "__error__":
+            facts[k] = True
+    if "__error__" in first_facts:
+        facts["__error__"] = first_facts["__error__"]
     chk.extra["witness_replay"] = {k: ("FAILS" if v else "ok") for k, v in facts.items()}
     if "__error__" in facts:
         chk.violation("failing-input", {"what": "FORD failed on the fixed witness project", "error": facts["__error__"]}, True)
